@@ -38,6 +38,7 @@ type Q struct {
 	Must  []Q      `json:"must,omitempty"`
 	Shd   []Q      `json:"should,omitempty"`
 	Not   []Q      `json:"must_not,omitempty"`
+	Flt   []Q      `json:"filter,omitempty"` // boolean: at most one filter clause (restricts, never scores)
 }
 
 // Tok is one analysed token.
@@ -378,8 +379,13 @@ func (q Q) Eval(e *EvalDoc, cx *Ctx) bool {
 		return cnt >= max(1, q.DMin)
 	case "boolean":
 		hasM := len(q.Must) > 0
-		if !hasM && len(q.Shd) == 0 && len(q.Not) == 0 {
+		if !hasM && len(q.Shd) == 0 && len(q.Not) == 0 && len(q.Flt) == 0 {
 			return false
+		}
+		for _, c := range q.Flt {
+			if !c.Eval(e, cx) {
+				return false
+			}
 		}
 		for _, c := range q.Not {
 			if c.Eval(e, cx) {
@@ -507,6 +513,9 @@ func (q Q) Bleve() query.Query {
 		if len(q.Shd) > 0 {
 			r.SetMinShould(float64(q.DMin))
 		}
+		if len(q.Flt) > 0 {
+			r.AddFilter(q.Flt[0].Bleve())
+		}
 		return r
 	}
 	panic(fmt.Sprintf("qeval: unhandled query type %q", q.T))
@@ -518,7 +527,7 @@ func (q Q) HasMultiTerm() bool {
 	case "prefix", "wildcard", "regexp", "fuzzy", "termrange", "numrange", "daterange":
 		return true
 	}
-	for _, l := range [][]Q{q.Sub, q.Must, q.Shd, q.Not} {
+	for _, l := range [][]Q{q.Sub, q.Must, q.Shd, q.Not, q.Flt} {
 		for _, c := range l {
 			if c.HasMultiTerm() {
 				return true
@@ -533,7 +542,7 @@ func (q Q) HasFuzzy() bool {
 	if q.T == "fuzzy" {
 		return true
 	}
-	for _, l := range [][]Q{q.Sub, q.Must, q.Shd, q.Not} {
+	for _, l := range [][]Q{q.Sub, q.Must, q.Shd, q.Not, q.Flt} {
 		for _, c := range l {
 			if c.HasFuzzy() {
 				return true
@@ -561,6 +570,9 @@ func (q Q) String() string {
 				ps = append(ps, c.String())
 			}
 			return strings.Join(ps, ", ")
+		}
+		if len(q.Flt) > 0 {
+			return fmt.Sprintf("boolean{must:[%s] should[min=%d]:[%s] must_not:[%s] filter:[%s]}", f(q.Must), q.DMin, f(q.Shd), f(q.Not), f(q.Flt))
 		}
 		return fmt.Sprintf("boolean{must:[%s] should[min=%d]:[%s] must_not:[%s]}", f(q.Must), q.DMin, f(q.Shd), f(q.Not))
 	case "phrase":
